@@ -195,7 +195,7 @@ PROPS["C01"] = {
 PROPS["C08"] = {
     "level": "proof",
     "technique": "Lean 4 theorems on the signing skeleton with explicit randomness (salt = first 40 draws, independent of message and key, distinct draws give distinct salts/signatures) + translator scan (salt buffer written once, before hashing) + draw-injection runs and un-hooked duplicate statistics",
-    "rule": "ops = sign_salt with an injected generator over combinations of same/different message, key and generator seed (judged: salt = first 40 bytes the generator produced); un-hooked sign_fresh: 400 (thorough 20000) signatures from 8 threads, judged: all salts distinct, no constant byte position; distinct by op line",
+    "rule": "ops = sign_salt with an injected generator over combinations of same/different message, key and generator seed (judged: salt = first 40 bytes the generator produced); un-hooked sign_fresh: 400 (thorough 300000 for Falcon-512: a birthday collision in any 32-bit bottleneck, 20000 for Falcon-1024) signatures from 8 threads, messages of lengths below and above one hash block, judged: all salts distinct, no constant byte position; distinct by op line",
     "exhaustive": {"quick": (False, ""), "thorough": (False, "")},
     "level_text": "Machine-checked on the model: the salt is the first 40 bytes drawn in the call, a function of the draws alone; different draws give different salts and signatures; source scan: r is filled exactly once before hash_to_point and never written again. NOT decidable by proof: that thread_rng() never repeats (OS entropy + ChaCha12, trusted); collected salts are checked for duplicates on every run as support.",
     "level_note": "Trusted: the operating system's entropy source and rand's ThreadRng; translator scan of `sign`.",
